@@ -45,6 +45,7 @@ type c19DS struct {
 	id        types.DataSourceID
 	exe       []byte // concrete content, length chosen by the harness
 	hash      string // sha256 hex of exe (file name on the chain and in the file cache)
+	cached    bool   // in the daemon's file cache before the step
 	hashFails int    // leading failures of the store query for the data source (>= maxTry: fails permanently)
 	dataFails int    // leading failures of the Query/Data call for the executable (>= maxTry: fails permanently)
 	hashCalls int
